@@ -1,5 +1,190 @@
 import XsVerif.Driver.Util
-open Lean XsVerif.Driver
+import XsVerif.Model.Converters
+open Lean XsVerif.Driver XsVerif.Conv
 
--- stub: replaced when the model of C05 lands
-def main : IO Unit := XsVerif.Driver.run fun _ => .error "C05 driver not implemented"
+namespace XsVerif.Driver.C05
+
+/-! JSON rendering of the model's data (canonical: constructor tags, insertion order kept because
+    Python dicts are ordered and the converters depend on that order). -/
+
+def pairsJson (f : α → Json) (l : List (String × α)) : Json :=
+  Json.arr (l.map fun kv => Json.arr #[Json.str kv.1, f kv.2]).toArray
+
+mutual
+def jToJson : J → Json
+  | .null => Json.null
+  | .atom k s => Json.mkObj [("a", Json.arr #[Json.str k, Json.str s])]
+  | .list xs => Json.mkObj [("l", Json.arr (jsToJson xs).toArray)]
+  | .dict kvs => Json.mkObj [("d", Json.arr (kvsToJson kvs).toArray)]
+  | .elem tag v atr kids tail x =>
+      Json.mkObj [("e", Json.mkObj [("tag", tag), ("value", jToJson v),
+        ("attrib", Json.arr (kvsToJson atr).toArray), ("kids", Json.arr (jsToJson kids).toArray),
+        ("tail", jToJson tail),
+        ("xmlns", pairsJson Json.str x)])]
+def jsToJson : List J → List Json
+  | [] => []
+  | x :: r => jToJson x :: jsToJson r
+def kvsToJson : List (String × J) → List Json
+  | [] => []
+  | (k, v) :: r => Json.arr #[Json.str k, jToJson v] :: kvsToJson r
+end
+
+def strPairs (j : Json) : Except String (List (String × String)) := do
+  let a ← j.getArr?
+  a.toList.mapM fun p => do
+    let q ← p.getArr?
+    if h : q.size = 2 then pure (← q[0].getStr?, ← q[1].getStr?) else throw "pair"
+
+/-- fuel-bounded parser (Lean.Json is a nested type; the driver is not proof relevant) -/
+def jOfJson : Nat → Json → Except String J
+  | 0, _ => throw "json too deep"
+  | _, .null => pure .null
+  | n + 1, j => do
+    if let .ok a := j.getObjVal? "a" then
+      let q ← a.getArr?
+      if h : q.size = 2 then return .atom (← q[0].getStr?) (← q[1].getStr?) else throw "atom"
+    if let .ok l := j.getObjVal? "l" then
+      let xs ← (← l.getArr?).toList.mapM (jOfJson n)
+      return .list xs
+    if let .ok d := j.getObjVal? "d" then
+      let kvs ← (← d.getArr?).toList.mapM fun p => do
+        let q ← p.getArr?
+        if h : q.size = 2 then pure (← q[0].getStr?, ← jOfJson n q[1]) else throw "kv"
+      return .dict kvs
+    if let .ok e := j.getObjVal? "e" then
+      let atr ← (← getArr e "attrib").toList.mapM fun p => do
+        let q ← p.getArr?
+        if h : q.size = 2 then pure (← q[0].getStr?, ← jOfJson n q[1]) else throw "kv"
+      let kids ← (← getArr e "kids").toList.mapM (jOfJson n)
+      return .elem (← getStr e "tag") (← jOfJson n (← e.getObjVal? "value")) atr kids
+        (← jOfJson n (← e.getObjVal? "tail")) (← strPairs (← e.getObjVal? "xmlns"))
+    throw "bad J"
+
+def parseFacts (j : Json) : Except String Facts := do
+  let ch ← (← getArr j "children").toList.mapM fun c => do
+    pure ({ name := ← getStr c "name", ty := ← getNat c "ty", single := ← getBool c "single" } : Child)
+  pure { hasGroup := ← getBool j "hasGroup", simple := ← getBool j "simple", mixed := ← getBool j "mixed",
+         emptyContent := ← getBool j "emptyContent", complex := ← getBool j "complex",
+         singleGroup := ← getBool j "singleGroup", isList := ← getBool j "isList",
+         anyType := ← getBool j "anyType", attrs := ← getStrList j "attrs", children := ch }
+
+def parseHd (fuel : Nat) (j : Json) : Except String Hd := do
+  let text ← match j.getObjVal? "text" with
+    | .ok t => some <$> jOfJson fuel t
+    | .error _ => pure none
+  let attrs ← (← getArr j "attrs").toList.mapM fun p => do
+    let q ← p.getArr?
+    if h : q.size = 2 then pure (← q[0].getStr?, ← jOfJson fuel q[1]) else throw "attr"
+  pure { tag := ← getStr j "tag", text, attrs, xmlns := ← strPairs (← j.getObjVal? "xmlns") }
+
+def parseNode (sch : Array Facts) : Nat → Json → Except String Node
+  | 0, _ => throw "node too deep"
+  | n + 1, j => do
+    let ty ← getNat j "ty"
+    let some f := sch[ty]? | throw "ty"
+    let hd ← parseHd 64 j
+    let its ← (← getArr j "items").toList.mapM fun it => do
+      if let .ok c := it.getObjVal? "c" then
+        let q ← c.getArr?
+        if h : q.size = 2 then pure (Item.cdata (← q[0].getNat?) (← jOfJson 64 q[1])) else throw "cdata"
+      else
+        let c ← it.getObjVal? "n"
+        let q ← c.getArr?
+        if h : q.size = 3 then
+          pure (Item.child (← q[0].getStr?) (← q[1].getBool?) (← parseNode sch n q[2]))
+        else throw "child"
+    pure (.mk f hd (Items.ofList its))
+
+def hdJson (hd : Hd) : List (String × Json) :=
+  [("tag", Json.str hd.tag), ("attrs", Json.arr (kvsToJson hd.attrs).toArray), ("xmlns", pairsJson Json.str hd.xmlns)] ++
+  (match hd.text with | some t => [("text", jToJson t)] | none => [])
+
+mutual
+def nodeJson : Node → Json
+  | .mk _ hd items => Json.mkObj (hdJson hd ++ [("items", Json.arr (itemsJson items).toArray)])
+def itemsJson : Items → List Json
+  | .nil => []
+  | .cdata i v r => Json.mkObj [("c", Json.arr #[i, jToJson v])] :: itemsJson r
+  | .child nm _ n r => Json.mkObj [("n", Json.arr #[Json.str nm, nodeJson n])] :: itemsJson r
+end
+
+def itemsJ (its : List (Item J)) : Json :=
+  Json.arr (its.map fun
+    | .cdata i v => Json.mkObj [("c", Json.arr #[i, jToJson v])]
+    | .child nm _ v => Json.mkObj [("n", Json.arr #[Json.str nm, jToJson v])]).toArray
+
+def parseItemsJ (j : Json) : Except String (List (Item J)) := do
+  (← j.getArr?).toList.mapM fun it => do
+    if let .ok c := it.getObjVal? "c" then
+      let q ← c.getArr?
+      if h : q.size = 2 then pure (Item.cdata (← q[0].getNat?) (← jOfJson 64 q[1])) else throw "cdata"
+    else
+      let c ← it.getObjVal? "n"
+      let q ← c.getArr?
+      if h : q.size = 3 then
+        pure (Item.child (← q[0].getStr?) (← q[1].getBool?) (← jOfJson 64 q[2]))
+      else throw "child"
+
+def errName : Err → String
+  | .typeErr => "caught" | .valueErr => "caught" | .unmatchedTag => "caught" | .noChild => "nochild"
+  | .leak => "leak" | .noType => "notype" | .fuel => "fuel"
+
+def lookupD (t : List (String × String)) (k : String) : String :=
+  match t.find? (·.1 == k) with | some p => p.2 | none => k
+def rlookupD (t : List (String × String)) (k : String) : String :=
+  match t.find? (·.2 == k) with | some p => p.1 | none => k
+
+/-- mapper tables: `tags`/`attrs` = [[extended, mapped]…]; unknown names map to themselves
+    (namespaces.py:336-338, 384-386) -/
+def parseMapper (j : Json) : Except String Mapper := do
+  let tags ← strPairs (← j.getObjVal? "tags")
+  let attrs ← strPairs (← j.getObjVal? "attrs")
+  pure { mp := lookupD (tags ++ attrs), um := rlookupD tags, umA := rlookupD attrs }
+
+def parseConv (j : Json) : Except String Conv := do
+  let m ← parseMapper (← j.getObjVal? "mapper")
+  let useNs ← getBool j "useNs"
+  match ← getStr j "conv" with
+  | "jsonml" => pure (JsonML.conv m useNs)
+  | c => throw s!"unknown converter {c}"
+
+def resJson (r : Except Err Node) : Json :=
+  match r with
+  | .ok n => Json.mkObj [("ok", nodeJson n)]
+  | .error e => Json.mkObj [("error", errName e)]
+
+def handle (j : Json) : Except String Json := do
+  let c ← parseConv j
+  let sch := (← (← getArr j "sch").mapM parseFacts)
+  let lookup : Nat → Option Facts := fun i => sch[i]?
+  match ← getStr j "op" with
+  | "rt" =>
+    -- decode the captured ElementData tree, encode the result again
+    let root ← parseNode sch 64 (← j.getObjVal? "root")
+    let .mk f hd _ := root
+    let data := decTree c root
+    let back := encTree c lookup 64 f hd.tag data
+    pure (Json.mkObj [("dec", jToJson data), ("enc", resJson back)])
+  | "enc" =>
+    let ty ← getNat j "ty"
+    let some f := sch[ty]? | throw "ty"
+    let obj ← jOfJson 64 (← j.getObjVal? "obj")
+    pure (Json.mkObj [("enc", resJson (encTree c lookup 64 f (← getStr j "name") obj))])
+  | "dec1" =>
+    let ty ← getNat j "ty"
+    let some f := sch[ty]? | throw "ty"
+    let hd ← parseHd 64 (← j.getObjVal? "hd")
+    let its ← parseItemsJ (← j.getObjVal? "items")
+    pure (Json.mkObj [("v", jToJson (c.dec f hd its))])
+  | "enc1" =>
+    let ty ← getNat j "ty"
+    let some f := sch[ty]? | throw "ty"
+    let obj ← jOfJson 64 (← j.getObjVal? "obj")
+    match c.enc f (← getStr j "name") obj with
+    | .ok (hd, its) => pure (Json.mkObj [("enc", Json.mkObj [("ok", Json.mkObj (hdJson hd ++ [("items", itemsJ its)]))])])
+    | .error e => pure (Json.mkObj [("enc", Json.mkObj [("error", errName e)])])
+  | op => throw s!"unknown op {op}"
+
+end XsVerif.Driver.C05
+
+def main : IO Unit := XsVerif.Driver.run XsVerif.Driver.C05.handle
